@@ -268,11 +268,11 @@ static u64 rndw(int w)   // random w-bit pattern with a random magnitude (unifor
 static std::vector<u64> multiples16(bool sgn, bool thorough)
 {
 	std::set<u64> s; u64 mx = sgn ? 0x7fff : 0xffff;
-	for (u64 m = 1; m <= (thorough ? 256u : 16u); ++m) s.insert(m);
+	for (u64 m = 1; m <= (thorough ? 128u : 16u); ++m) s.insert(m);
 	for (int k = 5; k < 16; ++k) for (int d = -1; d <= 1; ++d) { if (!thorough && d != 0 && k != 5 && k != 8 && k != 11 && k < 14) continue; u64 m = (1ull << k) + d; if (m >= 1 && m <= mx) s.insert(m); }
 	static const u64 X[] = { 100, 255, 256, 257, 1000, 10000 }; for (u64 m : X) s.insert(m);
 	s.insert(mx); s.insert(mx - 1); s.insert(mx / 2); s.insert(mx / 2 + 1); s.insert(mx / 3);
-	for (int i = 0; i < (thorough ? 256 : 6); ++i) s.insert(1 + rnd() % mx);
+	for (int i = 0; i < (thorough ? 96 : 6); ++i) s.insert(1 + rnd() % mx);
 	return std::vector<u64>(s.begin(), s.end());
 }
 static std::vector<u64> his(bool thorough, int nquick)   // the high halves of the packed 32-bit operands that are swept
@@ -290,7 +290,7 @@ static u64 f64bits(double f) { u64 b; memcpy(&b, &f, 8); return b; }
 static void plan(bool thorough, u64 sd)
 {
 	seed(sd);
-	const int NR = thorough ? 8000 : 700;
+	const int NR = thorough ? 4000 : 700;
 	static const int U1[] = { ISPOW2, CEILPOW2, NEXTPOW2, HBV, LBV, LOG2 };
 	static const int U1P[] = { FLOORPOW2, PREVPOW2, ROUNDPOW2, ABOVE, BELOW, NEAREST };     // signed: x >= 0 only
 	static const int V1[] = { V_ISPOW2, V_CEILPOW2, V_NEXTPOW2, V_HBV, V_LOG2 };
@@ -358,11 +358,12 @@ static void plan(bool thorough, u64 sd)
 	block(IL2X8, 10, 0, 0, 0, 65536, false);
 	for (u64 z = 0; z < 256; ++z) block(IL3X8, 10, z, 0, 0, 65536, false);
 	block(DEIL16, 10, 0, 0, 0, 65536, false);
-	{ std::vector<u64> hs = his(thorough, 96); for (u64 h : hs) { block(IL4X8, 10, h, 0, 0, 65536, false); block(IL2X16, 10, h, 0, 0, 65536, false); block(DEIL32, 10, h, 0, 0, 65536, false); } }
+	{ std::vector<u64> hs = his(thorough, 96); for (u64 h : hs) block(IL2X16, 10, h, 0, 0, 65536, false); }      // thorough: all 2^32 pairs
+	{ std::vector<u64> hs = his(false, thorough ? 8192 : 96); for (u64 h : hs) { block(IL4X8, 10, h, 0, 0, 65536, false); block(DEIL32, 10, h, 0, 0, 65536, false); } }
 	{
 		static const int IL8[] = { IL2X8S, IL2X8V, IL3X8S, IL3X8V, IL4X8S, IL4X8V }, IL16[] = { IL2X16S, IL2X16V, IL3X16, IL3X16S, IL3X16V, IL4X16, IL4X16S, IL4X16V }, IL32[] = { IL2X32, IL2X32S, IL2X32V, IL3X32, IL3X32S, IL3X32V };
 		std::vector<u64> b8 = boundary(8), b16 = boundary(16), b32 = boundary(32), b64 = boundary(64);
-		int n = thorough ? 60000 : 4000;
+		int n = thorough ? 30000 : 4000;
 		for (int i = 0; i < n; ++i) {
 			auto pick = [&](std::vector<u64>& bd, int w) { return rnd() % 3 == 0 ? bd[rnd() % bd.size()] : rndw(w); };
 			for (int op : IL8) line(op, 10, pick(b8, 8), pick(b8, 8), pick(b8, 8), pick(b8, 8));
